@@ -848,6 +848,27 @@ func (c *SpecCtx) evalCall(x *ECall) (Val, types.Type) {
 			c.fail("wrap: not an integer type")
 		}
 		return wrapTerm(tv, b), t
+	case "nowaitsince":
+		// nowaitsince("read", "wait"): the most recent call of "read" on the way here comes AFTER the
+		// most recent call of "wait" (or there is no call of "wait" at all) - what was read is not
+		// older than the last wait. Decided on the order of the call sites in the function.
+		if c.f == nil || len(x.Args) != 2 {
+			c.fail("nowaitsince(\"read\", \"wait\")")
+		}
+		a, ok1 := x.Args[0].(*EStr)
+		b, ok2 := x.Args[1].(*EStr)
+		if !ok1 || !ok2 {
+			c.fail("nowaitsince(\"read\", \"wait\")")
+		}
+		ra, okA := c.f.lastRes[a.V]
+		if !okA {
+			return tFalse, boolT
+		}
+		rb, okB := c.f.lastRes[b.V]
+		if !okB || rb.seq < ra.seq {
+			return tTrue, boolT
+		}
+		return tFalse, boolT
 	case "cur":
 		// cur(x): the current value of source variable x at this program point (in check-at clauses
 		// and postconditions a parameter name alone denotes its entry value)
